@@ -1,4 +1,4 @@
-#!/venv/bin/python
+#!/usr/bin/env python3
 """Benign refactor twins (twins/<name>/patch.diff: extract-method, merged branches, early returns ... - each confirmed to leave the
 pinned test suite unchanged). Every check must stay silent on every twin.
 usage: tools/twintest.py [name ...]"""
@@ -13,7 +13,7 @@ from concurrent.futures import ProcessPoolExecutor
 
 VERIF = os.path.dirname(os.path.dirname(os.path.abspath(__file__)))
 sys.path.insert(0, VERIF)
-from sa.core import Repo, Check, AnalysisError, run_rules  # noqa: E402
+from sa.core import Repo, Check, AnalysisError, run_rules, unlisted_violations  # noqa: E402
 
 ALL = [f"C{i:02d}" for i in range(1, 21)]
 
@@ -32,7 +32,7 @@ def run(job):
             try:
                 chk = Check(p, Repo(sc), "quick")
                 errs = run_rules(mod, chk)
-                v = sorted({(o.rule, o.what[:90]) for o in chk.obs if not o.ok})
+                v = sorted({(o.rule, o.what[:90]) for o in unlisted_violations(chk)})
                 if v:
                     bad.append((p, "VIOLATION", v))
                 if errs:
